@@ -1051,9 +1051,21 @@ func (bc *Blockchain) resetStateInternal(height uint32, stage stateChangeStage) 
 			keysCnt             = new(int)
 		)
 		for i := height + 1; i <= currHeight; i++ {
-			_, err := upperCache.DeleteBlock(bc.GetHeaderHash(i))
+			hh := bc.GetHeaderHash(i)
+			hdr, err := upperCache.GetBlock(hh)
+			if err != nil {
+				return fmt.Errorf("error while retrieving block %d: %w", i, err)
+			}
+			_, err = upperCache.DeleteBlock(hh)
 			if err != nil {
 				return fmt.Errorf("error while removing block %d: %w", i, err)
+			}
+			// Keep the header: an interrupted reset is resumed by init() only after
+			// the header hashes are re-walked from the stored headers. Headers are
+			// purged at a later stage.
+			err = upperCache.StoreHeader(&hdr.Header)
+			if err != nil {
+				return fmt.Errorf("error while keeping header %d: %w", i, err)
 			}
 			blocksCnt++
 			if blocksCnt == persistBatchSize {
